@@ -203,10 +203,14 @@ class Impl:
             self.agents.append(a)
             return self.ok(f"id={a.id}")
         if k == "mk":
+            if any(int(i) >= len(self.agents) for i in w[1:]):
+                return "bad-op"  # only the shrinker produces dangling references; the driver says the same
             s = self.AgentSet([self.agents[int(i)] for i in w[1:]], random=self.need_model().random)
             self.sets.append(s)
             self.cur["result_set"] = len(self.sets) - 1
             return self.ok(f"set={len(self.sets) - 1}")
+        if int(w[1]) >= len(self.sets) or (k in ("add", "discard", "remove", "contains") and int(w[2]) >= len(self.agents)):
+            return "bad-op"
         s = self.sets[int(w[1])]
         if k == "select":
             f, inplace = pred_fn(w[2]), w[5] == "1"
@@ -530,6 +534,8 @@ def oracle(sc, obs):
         for j, s in enumerate(sets1):
             if len(set(s)) != len(s):
                 bad.append(f"nodup: set {j} lists a member twice after `{ev['line']}`: {s}")
+        if out == "bad-op":
+            continue
         if out.startswith("err"):
             if (sets0, attrs0) != (sets1, attrs1):
                 bad.append(f"reject: `{ev['line']}` raised ({out}) and changed the state")
@@ -686,7 +692,7 @@ def nontrivial(sc, obs):
     n = 0
     for ev in sc.meta.get("trace") or []:
         w = ev["line"].split()
-        if w[0] in ("select", "sort", "shuffle", "group") and not ev["out"].startswith("err") and len(ev["pre"][0][int(w[1])]) >= 3:
+        if w[0] in ("select", "sort", "shuffle", "group") and ev["out"].startswith("ok") and len(ev["pre"][0][int(w[1])]) >= 3:
             n += 1
     return n >= 3
 
@@ -695,6 +701,8 @@ def tags(sc, obs):
     for ev in sc.meta.get("trace") or []:
         w = ev["line"].split()
         yield "op:" + w[0]
+        if ev["out"] == "bad-op":
+            continue
         if ev["out"].startswith("err"):
             yield "reject:" + w[0] + ":" + ev["out"].split()[1]
             continue
